@@ -85,7 +85,7 @@ fn emit(e: &Expr, ctx: Ctx, out: &mut Vec<Tok>) {
                     out.push(t(":"));
                 }
             }
-            if *boxed {
+            if *boxed && *name != FieldName::None {
                 out.push(t("*"));
             }
             out.push(t(rule));
